@@ -323,3 +323,51 @@ def start_component(self, attrs):
 
 def end_component(self):
     self.pop_prefix()
+
+
+def startElement(self, name, attrs):
+    attrs = dict(attrs)
+    if self._elem_stack:
+        parent = self._elem_stack[-1]
+        if name not in self._allowed_parents:
+            self.error("Unknown tag")
+        if parent not in self._allowed_parents[name]:
+            self.error("may not be nested")
+    elif name != self._top_level:
+        self.error("Unknown document type", ZConfig.UnknownDocumentTypeError)
+    self._elem_stack.append(name)
+    if name == self._top_level:
+        if self._schema is not None:
+            self.error("schema element improperly nested")
+        getattr(self, "start_" + name)(attrs)
+    elif name in self._handled_tags:
+        if self._schema is None:
+            self.error("element outside of schema")
+        getattr(self, "start_" + name)(attrs)
+    elif name in self._cdata_tags:
+        if self._schema is None:
+            self.error("element outside of schema")
+        if self._cdata is not None:
+            self.error("element improperly nested")
+        self._cdata = []
+        self._position = None
+        self._attrs = attrs
+
+
+def characters(self, data):
+    if self._cdata is not None:
+        if self._position is None:
+            self._position = self.get_position()
+        self._cdata.append(data)
+    elif data.strip():
+        self.error("unexpected non-blank character data")
+
+
+def endElement(self, name):
+    del self._elem_stack[-1]
+    if name in self._handled_tags:
+        getattr(self, "end_" + name)()
+    else:
+        data = ''.join(self._cdata).strip()
+        self._cdata = None
+        getattr(self, "characters_" + name)(data)
